@@ -129,6 +129,28 @@ def MultiPolygon(polys=None):
 @model
 def to_wkt(geom, *a, **kw):
     core.ctx().lib_used.add('SHAPELY-TO-WKT (loss free only for rounding_precision=-1; default 6 decimals)')
+    from .numpy_ import INT64, NDArray
+    from .seq import SymSeq
+    if isinstance(geom, (list, tuple, core.TList, NDArray, SymSeq)):
+        # SH-TO-WKT-ARRAY: element-wise texts, here as integer keys that are order-isomorphic to the texts (equal text <=> equal key). The text
+        # is a function of the geometry and of the call options only; with the default rounding it is NOT injective (two geometries that
+        # agree to 6 decimals have one text), so nothing relates the keys of different geometries.
+        import z3
+        from .numpy_ import asarray, used
+        from .shapely_ import GeomSort, _fn, _term_of
+        used('SH-TO-WKT-ARRAY')
+        if a or set(kw) - {'rounding_precision', 'trim', 'output_dimension'}:
+            raise core.Unsupported('to_wkt options')
+        arr = asarray(list(geom) if isinstance(geom, (tuple, core.TList)) else geom).frozen()
+        key = _fn('wkt_text_key_' + repr(sorted((k, repr(v)) for k, v in kw.items())), GeomSort, z3.IntSort())
+
+        def at(i):
+            g = arr.fn(i)
+            t = g.z if isinstance(g, core.SVal) and not hasattr(g, 'term') else _term_of(g)
+            return core.mk_int(key(t))
+        r = NDArray(arr.shape, at, INT64)
+        r.text_keys = True
+        return r
     s = Serialised('wkt', geom, a, kw)
     core.ctx().event('shapely.to_wkt', s)
     return s
